@@ -46,7 +46,10 @@ def run(tier):
     per_op, nd = (8, 900) if tier == "quick" else (60, 10000)
     st = {"single": lc.validate(ck, "C09", lc.specs_single(ck.seed + 41, per_op, fault=True), "catalogue operators alone, fault"),
           "depth2": lc.validate(ck, "C09", lc.specs_depth(ck.seed + 42, nd, 2, fault=True), "depth 2, fault"),
-          "depth3": lc.validate(ck, "C09", lc.specs_depth(ck.seed + 43, nd, 3, fault=True), "depth 3, fault")}
+          "depth3": lc.validate(ck, "C09", lc.specs_depth(ck.seed + 43, nd, 3, fault=True), "depth 3, fault"),
+          # the injected exception also is a StopIteration: must not be mistaken for the end of an iterator the operator advances
+          "stop": lc.validate(ck, "C09", lc.specs_single(ck.seed + 44, per_op, fault="stop") + lc.specs_depth(ck.seed + 45, nd // 2, 2, fault="stop"),
+                              "alone and depth 2, the raised exception is a StopIteration subclass")}
     ck.note("pipeline_runs", st)
     ck.nontrivial = sum(1 for g in faulty if any(e["k"] == "E" and e["e"] == "fn" for e in g[1][0]["out"])) + sum(v["validated"] for v in st.values())
     ck.note("scenarios_with_a_raising_entry", len(faulty))
